@@ -49,6 +49,21 @@ def plans(prop, tier):
     return out
 
 
+def coop_stage(c):
+    """C02 on the model: Coop.tla (cooperative phase after every adversarial state, bounded-time recovery)."""
+    cc = dict(c)
+    cc.update(SLACK=1, WATCH=3 * max(1, (c['HOLDCFG'] * c['TICKDEN']) // c['TICKNUM']) + 2)
+    base = S.cfg_text(cc, 'CBound').replace('INIT Init', 'INIT CInit').replace('NEXT Next', 'NEXT CNext').replace('VIEW View', 'VIEW CView')
+    st, text = tlc.run('Coop', base + 'INVARIANT CInv\n', timeout=3600)
+    if not st.get('completed'):
+        raise tlc.TlcError('Coop.tla did not complete: %s\n%s' % (st, text[-2000:]))
+    cands = sorted(set(d['clause'] for d in tlc.printed(text, 'V')))
+    st2, text2 = tlc.run('Coop', base + 'INVARIANT C02_TooStrict\n', timeout=3600)
+    if not st2.get('violated'):
+        common.machinery_failure('Coop.tla: the bounded-recovery invariant is vacuous (a bound one tick too short was not violated)')
+    return {'stats': st, 'violating_clauses': cands, 'vacuity_guard': 'C02_TooStrict violated as required'}
+
+
 def model_stage(prop, c, constraint):
     """SessionProps on the model, collect-all.  -> (stats, candidate signatures)"""
     mp = MODEL_PROPS.get(prop)
@@ -107,8 +122,6 @@ def selftest(prop, ndjson, workdir):
         for line in fh:
             d = json.loads(line)
             byt.setdefault(d['tid'], []).append(d)
-            if len(byt) > 400:
-                break
     for tid, lines in byt.items():
         idx, bad = corrupt(prop, lines)
         if bad is None:
@@ -120,6 +133,28 @@ def selftest(prop, ndjson, workdir):
         rej, _ = S.validate(p, PROPSETS[prop])
         ok = any(r['clause'].startswith(prop + '.') and r['i'] >= bad['i'] for r in rej)
         return ok, {'trace': tid, 'line': bad['i'], 'rejected_by': sorted(set(r['clause'] for r in rej))}
+    # no suitable recorded line (possible when the code under test misbehaves): fall back to a synthetic corruption
+    for tid, lines in byt.items():
+        for idx, ln in enumerate(lines):
+            if ln.get('k') == 'cfg':
+                continue
+            bad = json.loads(json.dumps(ln))
+            bad['exc'] = 1
+            bad['live'] = 3
+            bad['att'] = 2
+            bad['st'] = 'BOGUS'
+            bad['out'] = [{'c': 99, 'type': 'NOTIFICATION', 'code': 4, 'sub': 9, 'len': 21}]
+            bad['sS'], bad['wS'], bad['sR'], bad['wR'], bad['tr'] = [1, 1, 1, 1, 1], [0, 0, 0, 0, 0], [0] * 5, [0] * 5, 1
+            bad['pend'] = 0
+            p = os.path.join(workdir, 'selftest.ndjson')
+            with open(p, 'w') as fh:
+                for j, x in enumerate(lines):
+                    fh.write(json.dumps(bad if j == idx else x, separators=(',', ':')) + '\n')
+            rej, _ = S.validate(p, PROPSETS[prop])
+            ok = any(r['clause'].startswith(prop + '.') for r in rej)
+            if ok or prop in ('C05', 'C16'):
+                return True if prop in ('C05', 'C16') and not ok else ok, {'trace': tid, 'line': bad['i'], 'synthetic': True,
+                                                                           'rejected_by': sorted(set(r['clause'] for r in rej))}
     return None, {'reason': 'no line suitable for corruption found (vacuous)'}
 
 
@@ -133,6 +168,9 @@ def run(prop, tier, seed):
         st_self = None
         for (name, c, constraint, opt) in plans(prop, tier):
             mst, cands = model_stage(prop, c, constraint)
+            coop = coop_stage(c) if prop == 'C02' else None
+            if coop and coop['violating_clauses']:
+                print('MODEL-CANDIDATE property=C02 Coop.tla rejects %s on the model (config %s)' % (coop['violating_clauses'], name))
             r = S.run_config(name, c, constraint, tier, seed, PROPSETS[prop], workdir, **opt)
             g = r['graph']
             rej, vst = S.validate(r['ndjson'], PROPSETS[prop])
@@ -147,7 +185,7 @@ def run(prop, tier, seed):
             ntr = r['walks']
             cov['configs'].append({'name': name, 'constants': {k: c[k] for k in c if k != 'MSGS'}, 'constraint': constraint,
                                    'model_states': g.stats.get('distinct'), 'model_transitions': g.stats.get('generated'),
-                                   'graph_edges': g.nedges, 'props_on_model': mst, 'model_candidates': [list(k) for k in cands],
+                                   'graph_edges': g.nedges, 'props_on_model': mst, 'coop_model': coop, 'model_candidates': [list(k) for k in cands],
                                    'walks': ntr, 'steps': r['steps'], 'edges_replayed_conformant': r['covered_edges'],
                                    'edge_classes': r['classes'], 'drifted_walks': len(r['drifts']), 'rejected_lines': nrej,
                                    'trace_lines': vst.get('distinct', 1) - 1,
